@@ -273,10 +273,11 @@ theorem deMorgan_total {t : Tree} (pre : DMPre t) (inv : TreeInv t)
     volume ids are in range.  Whenever `transform_negated_joins` returns (`.ok`): the new tree
     satisfies the invariant, has the same number of volumes, every volume denotes what it denoted
     (chains resolved), and no negation of a join remains.  Proof: the code reads the tree only
-    through `dealias` except in `add_negation_for_operands`, so a successful run equals the run
-    on the resolved tree (`transformNegatedJoins_imp`), to which `deMorgan_preserves` applies.
-    It does NOT always return on such trees: `deMorgan_throws_on_negated_alias_of_join`,
-    `deMorgan_asserts_on_negated_alias_of_negation`. -/
+    through `dealias` (since repo commit 9889e64 also in `add_negation_for_operands`), so the run
+    equals the run on the resolved tree (`transformNegatedJoins_congr`), to which
+    `deMorgan_preserves` applies.  Under the full invariant it always returns
+    (`deMorgan_total_alias`); a double negation through an alias (excluded by `DMPreA`) still
+    makes the unchanged code fail: `deMorgan_asserts_on_negated_alias_of_negation`. -/
 theorem deMorgan_preserves_alias {t t' : Tree} (s : Struct t) (hso : Sorted t) (pre : DMPreA t)
     (hvol : ∀ v ∈ t.volumes, v < t.size) (hsmall : 3 * t.size + 2 ≤ invalid)
     (h : transformNegatedJoins t = .ok t') :
@@ -289,14 +290,53 @@ theorem deMorgan_preserves_alias {t t' : Tree} (s : Struct t) (hso : Sorted t) (
   have := h4 i u hi hg
   cases hgu : t'.get u <;> rw [hgu] at this <;> first | rfl | exact absurd this (by simp [IsLeaf])
 
-/-- pre-existing behaviour of the unchanged code (corpus/C10/findings/
-    demorgan-negated-alias-of-join.ops; the real code throws `std::bad_variant_access`): a
-    `Negated` node pointing at an ALIAS of a join makes `add_negation_for_operands` call
-    `std::get<Joined>` on the alias node -/
-theorem deMorgan_throws_on_negated_alias_of_join :
-    Sorted negAliasWitness ∧ negAliasWitness.get 7 = .negated 6 ∧
-    negAliasWitness.get 6 = .aliased 4 ∧ transformNegatedJoins negAliasWitness = .error "bad-variant" := by
-  refine ⟨by decide, by decide, by decide, dmError_some (by decide)⟩
+/-- ★ (e) total form with alias chains: on every tree satisfying the invariant, without `False`
+    nodes and without double negations even through aliases, with volume ids in range,
+    `transform_negated_joins` returns and preserves every volume — alias nodes and alias chains of
+    any depth, negations of aliases of joins included -/
+theorem deMorgan_total_alias {t : Tree} (inv : TreeInv t) (pre : DMPreA t)
+    (hvol : ∀ v ∈ t.volumes, v < t.size) (hsmall : 3 * t.size + 2 ≤ invalid) :
+    ∃ t', transformNegatedJoins t = .ok t' ∧ TreeInv t' ∧
+      t'.volumes.length = t.volumes.length ∧
+      (∀ k (hk : k < t.volumes.length) (hk' : k < t'.volumes.length) σ,
+        denote t' σ (t'.volumes[k]) = denote t σ (t.volumes[k])) ∧
+      (∀ i u, i < t'.size → t'.get i = .negated u → isJoined (t'.get u) = false) := by
+  rcases transformNegatedJoins_defined_alias inv pre hvol hsmall with ⟨t', h⟩
+  exact ⟨t', h, deMorgan_preserves_alias inv.struct inv.sorted pre hvol hsmall h⟩
+
+set_option maxRecDepth 100000 in
+/-- regression (repo commit 9889e64, corpus/C10/findings/demorgan-negated-alias-of-join.ops): a
+    `Negated` node pointing at an ALIAS of a join (node 7 = ¬6, 6 = alias of 4 = S0 ∧ S1) used
+    to make `add_negation_for_operands` throw `std::bad_variant_access`; now the transformation
+    returns and the volume still denotes ¬(S0 ∧ S1) -/
+theorem deMorgan_handles_negated_alias_of_join :
+    negAliasWitness.get 7 = .negated 6 ∧ negAliasWitness.get 6 = .aliased 4 ∧
+    ∃ t', transformNegatedJoins negAliasWitness = .ok t' ∧ t'.volumes.length = 1 ∧
+      ∀ σ, denote t' σ (t'.volumes.getD 0 0) = !(σ 0 && σ 1) := by
+  have hs : Struct negAliasWitness := struct_of_P (by decide)
+  have hso : Sorted negAliasWitness := by decide
+  have hpre : DMPreA negAliasWitness := dmPreA_of_P hs hso (by decide)
+  refine ⟨by decide, by decide, ?_⟩
+  cases h : transformNegatedJoins negAliasWitness with
+  | error e =>
+    have : dmError (transformNegatedJoins negAliasWitness) = none := by decide
+    rw [h] at this; cases this
+  | ok t' =>
+    have hp := deMorgan_preserves_alias hs hso hpre (by decide) (by decide) h
+    have hlen : t'.volumes.length = 1 := hp.2.1
+    refine ⟨t', rfl, hlen, fun σ => ?_⟩
+    have h0 := hp.2.2.1 0 (by decide) (by omega) σ
+    have hv : t'.volumes.getD 0 0 = t'.volumes[0]'(by omega) := by
+      rw [List.getD_eq_getElem?_getD, List.getElem?_eq_getElem (by omega)]; rfl
+    rw [hv, h0]
+    have : negAliasWitness.volumes[0]'(by decide) = 7 := by decide
+    rw [this]
+    have hnodes : negAliasWitness.nodes = [.tru, .negated 0, .surface 0, .surface 1,
+        .joined .and [2, 3], .aliased 0, .aliased 4, .negated 6] := by decide
+    unfold denote
+    rw [hnodes]
+    simp only [denoteFuel, evalNode, List.getD_cons_succ, List.getD_cons_zero, List.all_cons,
+      List.all_nil, Bool.and_true]
 
 /-- pre-existing behaviour of the unchanged code (corpus/C10/findings/
     demorgan-crash-outside-precondition.ops; the real code crashes): a `Negated` node pointing at
